@@ -240,6 +240,11 @@ ATOMS = [
     ("assign", "x", ("idx", "a", ("bin", "+", L("long", 4294967296), Y))),
     ("aassign", "a", ("bin", "+", L("long", 4294967296), L("long", 1)), X),
     ("assign", "x", ("call", "nfind", [Y])),
+    # grouping parentheses around a callee, a collection, an assignment target (hunt C14/d12)
+    ("assign", "x", ("pcall", "find", [Y])),
+    ("assign", "y", ("pidx", "a", X)),
+    ("passign", "x", ("bin", "+", Y, L("int", 3))),
+    ("paassign", "a", L("int", 1), ("bin", "+", X, Y)),
     # assignments as values (hunt C07/d7): 'x = a[1] = 9', 'a[0] = a[2] = 7', '(x = 4) + 1'
     ("assign", "x", ("aassignx", "a", L("int", 1), L("int", 9), False)),
     ("aassign", "a", L("int", 0), ("aassignx", "a", L("int", 2), ("bin", "+", Y, L("int", 7)), False)),
